@@ -34,12 +34,14 @@ impl<'r> Gen<'r> {
             let n = self.r.range(1, 3);
             let mut v = Vec::new();
             for _ in 0..n {
-                let len = self.r.range(0, 3) as usize;
+                let len = self.r.range(0, 4) as usize;
                 let p = if self.r.chance(2, 3) {
                     let nm = resolved(&self.names[self.r.below(self.names.len() as u64) as usize]);
-                    hex::encode(sha256(nm.as_bytes()))[..len].to_string()
+                    let p = hex::encode(sha256(nm.as_bytes()))[..len].to_string();
+                    // the digest is compared as lower-case text: an upper-case spelling matches nothing
+                    if self.r.chance(1, 4) { p.to_uppercase() } else { p }
                 } else {
-                    (0..len).map(|_| *self.r.pick(&['0', '5', 'a', 'f'])).collect()
+                    (0..len).map(|_| *self.r.pick(&['0', '5', 'a', 'f', 'A', 'F', 'g'])).collect()
                 };
                 v.push(p);
             }
